@@ -185,7 +185,10 @@ CONFIGS: Dict[str, Dict[str, List[Dict[str, Any]]]] = {
     },
     "MMST": {
         "quick": [_c("default"), _c("n12e18d4a2p3L7", nodes=12, edges=18, degree=4, agents=2, per_agent=3, time_limit=7),
-                  _c("n13e20d5a2p3", nodes=13, edges=20, degree=5, agents=2, per_agent=3, time_limit=30)],
+                  _c("n13e20d5a2p3", nodes=13, edges=20, degree=5, agents=2, per_agent=3, time_limit=30),
+                  # small dense graphs with 3 and 4 agents: several agents are often adjacent to the same node
+                  _c("n10e16d5a3p2", nodes=10, edges=16, degree=5, agents=3, per_agent=2, time_limit=20),
+                  _c("n12e22d6a4p2", nodes=12, edges=22, degree=6, agents=4, per_agent=2, time_limit=20)],
         "thorough": [
             _c("default"), _c("n12e18d4a2p3L7", nodes=12, edges=18, degree=4, agents=2, per_agent=3, time_limit=7),
             _c("n20e30d5a3p3L3", nodes=20, edges=30, degree=5, agents=3, per_agent=3, time_limit=3),
@@ -195,6 +198,7 @@ CONFIGS: Dict[str, Dict[str, List[Dict[str, Any]]]] = {
             _c("n20e30d3a3p3", nodes=20, edges=30, degree=3, agents=3, per_agent=3, time_limit=30),
             _c("n13e20d5a2p3", nodes=13, edges=20, degree=5, agents=2, per_agent=3, time_limit=30),
             _c("n10e16d5a3p2", nodes=10, edges=16, degree=5, agents=3, per_agent=2, time_limit=20),
+            _c("n12e22d6a4p2", nodes=12, edges=22, degree=6, agents=4, per_agent=2, time_limit=20),
         ],
     },
     "MultiCVRP": {
